@@ -7,6 +7,7 @@
 -/
 import DnsProofs.C09
 import DnsProofs.C08Plain
+import DnsProofs.C08ExactMsg
 namespace Dns.C09M
 open Dns Dns.MU Dns.Len Dns.C08M Dns.C02M Dns.C09
 
@@ -201,5 +202,266 @@ theorem fits_packs_within (m : MsgM) (size : Int) (hq : ∀ q ∈ m.question, Na
     (w.length : Int) ≤ effSize size := by
   have := lenMsg_ge_packMsgPlain m false hq hcov (Or.inl rfl) w hp ulen hl
   omega
+
+end Dns.C09M
+
+namespace Dns.C09M
+open Dns Dns.MU Dns.Len Dns.C08M Dns.C02M Dns.C09 Dns.C08X
+
+/-! ### the first dropped record would not have fitted (escape-free messages of the exact types) -/
+
+/-- one guarded section loop: if it dropped a record, the kept prefix fills the budget exactly or the first dropped
+    record takes the running length over it -/
+theorem guard_first_dropped {R σ : Type} (lenf : σ → Nat → R → Nat × σ) (size : Int) (rs : List R) (l : Nat) (st : σ)
+    (hl : (l : Int) ≤ size)
+    (h : (if (l : Int) < size then truncateLoop lenf size rs l st 0 else ((l : Int), 0, st)).2.1 < rs.length) :
+    let k := (if (l : Int) < size then truncateLoop lenf size rs l st 0 else ((l : Int), 0, st)).2.1
+    ∃ r, rs[k]? = some r ∧ (((lenFold lenf (rs.take k) l st).1 : Int) = size ∨
+      (((lenFold lenf (rs.take k) l st).1 + (lenf (lenFold lenf (rs.take k) l st).2 (lenFold lenf (rs.take k) l st).1 r).1 : Nat) : Int) > size) := by
+  by_cases hg : (l : Int) < size
+  · simp only [hg, ↓reduceIte] at h ⊢
+    have := loop_first_dropped lenf size rs l st 0 (by simpa using h)
+    simpa using this
+  · simp only [hg, ↓reduceIte] at h ⊢
+    cases rs with
+    | nil => simp at h
+    | cons r rs => exact ⟨r, rfl, Or.inl (by simp [lenFold]; omega)⟩
+
+/-- the messages `lenMsg_eq_packMsgC` speaks about -/
+def ExactMsg (m : MsgM) : Prop :=
+  (∀ q ∈ m.question, PlainName q.name) ∧ ∀ r ∈ m.answer ++ m.ns ++ m.extra, ExactRR r
+
+theorem exact_len_defined_fold (m : MsgM) (hx : ExactMsg m)
+    (hcomp : ¬ (m.question.length ≤ 1 ∧ m.answer.isEmpty ∧ m.ns.isEmpty ∧ m.extra.isEmpty))
+    (w : Bytes) (hp : packMsgCOf m = some w) (n : Nat) (hl : lenMsg m true = some n) :
+    w.length = (lenFold lenItem (items m.question m.answer m.ns m.extra) 12 (some [])).1 := by
+  rw [lenMsg_eq_packMsgC m hx.1 hx.2 hcomp w hp n hl]
+  exact lenMsg_eq_fold m n hl hcomp
+
+/-- **the first dropped answer record would not have fitted**: when the machine cuts the answer section of an
+    escape-free message of the exact types, either what it kept fills the budget to the octet, or the message of the
+    questions, the kept answers and the first dropped one packs to more than the budget -/
+theorem first_dropped_answer_does_not_fit (m : MsgM) (hx : ExactMsg m) (size : Int)
+    (hfit : ((lenFold lenItem (m.question.map Sum.inl) 12 (some [])).1 : Int) ≤ size) :
+    let c := truncCounts lenItem (some []) size (toT m)
+    c.a.2.1 < m.answer.length →
+    let more : MsgM := { m with answer := m.answer.take (c.a.2.1 + 1), ns := [], extra := [] }
+    ((lenFold lenItem (items m.question (m.answer.take c.a.2.1) [] []) 12 (some [])).1 : Int) = size ∨
+    ∀ (w : Bytes), packMsgCOf more = some w → ∀ (n : Nat), lenMsg more true = some n → size < (w.length : Int) := by
+  intro c hcut more
+  have hcut' : c.a.2.1 < (m.answer.map Sum.inr : List (Sum Qm RRm)).length := by simpa using hcut
+  obtain ⟨r, hr0, hcase0⟩ := guard_first_dropped lenItem size (m.answer.map Sum.inr)
+    (lenFold lenItem (m.question.map Sum.inl) 12 (some [])).1 (lenFold lenItem (m.question.map Sum.inl) 12 (some [])).2
+    hfit hcut'
+  have hr : (m.answer.map Sum.inr : List (Sum Qm RRm))[c.a.2.1]? = some r := hr0
+  have hcase : ((lenFold lenItem ((m.answer.map Sum.inr).take c.a.2.1)
+        (lenFold lenItem (m.question.map Sum.inl) 12 (some [])).1 (lenFold lenItem (m.question.map Sum.inl) 12 (some [])).2).1 : Int) = size ∨
+      (((lenFold lenItem ((m.answer.map Sum.inr).take c.a.2.1)
+        (lenFold lenItem (m.question.map Sum.inl) 12 (some [])).1 (lenFold lenItem (m.question.map Sum.inl) 12 (some [])).2).1 +
+        (lenItem (lenFold lenItem ((m.answer.map Sum.inr).take c.a.2.1)
+          (lenFold lenItem (m.question.map Sum.inl) 12 (some [])).1 (lenFold lenItem (m.question.map Sum.inl) 12 (some [])).2).2
+          (lenFold lenItem ((m.answer.map Sum.inr).take c.a.2.1)
+          (lenFold lenItem (m.question.map Sum.inl) 12 (some [])).1 (lenFold lenItem (m.question.map Sum.inl) 12 (some [])).2).1 r).1 : Nat) : Int) > size := hcase0
+  clear hr0 hcase0
+  have hfoldk : lenFold lenItem (items m.question (m.answer.take c.a.2.1) [] []) 12 (some []) =
+      lenFold lenItem ((m.answer.map Sum.inr).take c.a.2.1) (lenFold lenItem (m.question.map Sum.inl) 12 (some [])).1
+        (lenFold lenItem (m.question.map Sum.inl) 12 (some [])).2 := by
+    simp only [items, List.map_nil, List.append_nil, lenFold_append, List.map_take]
+  rcases hcase with h | h
+  · left; rw [hfoldk]; exact h
+  · right
+    intro w hp n hl
+    have hne : ¬ (more.question.length ≤ 1 ∧ more.answer.isEmpty ∧ more.ns.isEmpty ∧ more.extra.isEmpty) := by
+      intro hh
+      have : (m.answer.take (c.a.2.1 + 1)).isEmpty = true := hh.2.1
+      have hlen : (m.answer.take (c.a.2.1 + 1)).length = c.a.2.1 + 1 := by
+        rw [List.length_take]; omega
+      cases hm : m.answer.take (c.a.2.1 + 1) with
+      | nil => rw [hm] at hlen; simp at hlen
+      | cons _ _ => rw [hm] at this; simp at this
+    have hxm : ExactMsg more := by
+      refine ⟨hx.1, ?_⟩
+      intro r' hr'
+      simp only [more, List.append_nil, List.mem_append] at hr'
+      exact hx.2 r' (by simp [List.mem_of_mem_take hr'])
+    have hw := exact_len_defined_fold more hxm hne w hp n hl
+    -- the fold over questions, kept answers and the first dropped one
+    obtain ⟨r0, hr0a, hr0b⟩ : ∃ r0, m.answer[c.a.2.1]? = some r0 ∧ r = Sum.inr r0 := by
+      rw [List.getElem?_map] at hr
+      cases ha : m.answer[c.a.2.1]? with
+      | none => rw [ha] at hr; simp at hr
+      | some r0 => rw [ha] at hr; simp only [Option.map_some, Option.some.injEq] at hr; exact ⟨r0, rfl, hr.symm⟩
+    have htake : m.answer.take (c.a.2.1 + 1) = m.answer.take c.a.2.1 ++ [r0] := by
+      rw [List.take_succ, hr0a]; rfl
+    have hitems : items more.question more.answer more.ns more.extra =
+        (m.question.map Sum.inl ++ (m.answer.map Sum.inr).take c.a.2.1) ++ [Sum.inr r0] := by
+      simp only [items, more, htake, List.map_append, List.map_cons, List.map_nil, List.append_nil, List.map_take,
+        List.append_assoc]
+    rw [hitems, lenFold_snoc, lenFold_append] at hw
+    subst hr0b
+    simp only at hw h
+    rw [hw]
+    exact_mod_cast h
+
+/-- a guarded section loop that kept everything ends in the state of Len's fold over the section -/
+theorem guard_all_kept {R σ : Type} (lenf : σ → Nat → R → Nat × σ) (size : Int) (rs : List R) (l : Nat) (st : σ)
+    (h : (if (l : Int) < size then truncateLoop lenf size rs l st 0 else ((l : Int), 0, st)).2.1 = rs.length) :
+    (if (l : Int) < size then truncateLoop lenf size rs l st 0 else ((l : Int), 0, st)).1 = ((lenFold lenf rs l st).1 : Int) ∧
+    (if (l : Int) < size then truncateLoop lenf size rs l st 0 else ((l : Int), 0, st)).2.2 = (lenFold lenf rs l st).2 := by
+  by_cases hg : (l : Int) < size
+  · simp only [hg, ↓reduceIte] at h ⊢
+    exact loop_all_kept lenf size rs l st 0 (by simpa using h)
+  · simp only [hg, ↓reduceIte] at h ⊢
+    have : rs = [] := List.eq_nil_of_length_eq_zero h.symm
+    subst this
+    simp [lenFold]
+
+/-- the packing side of "would not have fitted": a message whose items are a kept part and one more record -/
+theorem does_not_fit_core (more : MsgM) (hxm : ExactMsg more)
+    (hne : ¬ (more.question.length ≤ 1 ∧ more.answer.isEmpty ∧ more.ns.isEmpty ∧ more.extra.isEmpty))
+    (kept : List (Sum Qm RRm)) (r0 : RRm)
+    (hitems : items more.question more.answer more.ns more.extra = kept ++ [Sum.inr r0]) (size : Int)
+    (h : (((lenFold lenItem kept 12 (some [])).1 +
+      (lenItem (lenFold lenItem kept 12 (some [])).2 (lenFold lenItem kept 12 (some [])).1 (Sum.inr r0)).1 : Nat) : Int) > size) :
+    ∀ (w : Bytes), packMsgCOf more = some w → ∀ (n : Nat), lenMsg more true = some n → size < (w.length : Int) := by
+  intro w hp n hl
+  have hw := exact_len_defined_fold more hxm hne w hp n hl
+  rw [hitems, lenFold_snoc] at hw
+  simp only at hw
+  rw [hw]
+  exact_mod_cast h
+
+theorem take_succ_snoc {α : Type} (xs : List α) (k : Nat) (x : α) (h : xs[k]? = some x) :
+    xs.take (k + 1) = xs.take k ++ [x] := by
+  rw [List.take_succ, h]; rfl
+
+theorem nonempty_not_trivial (q : List Qm) (a n e : List RRm) (h : a ≠ [] ∨ n ≠ [] ∨ e ≠ []) :
+    ¬ (q.length ≤ 1 ∧ a.isEmpty ∧ n.isEmpty ∧ e.isEmpty) := by
+  intro hh
+  simp only [List.isEmpty_iff] at hh
+  rcases h with h | h | h
+  · exact h hh.2.1
+  · exact h hh.2.2.1
+  · exact h hh.2.2.2
+
+/-- **the first dropped authority record would not have fitted** (all answers kept) -/
+theorem first_dropped_ns_does_not_fit (m : MsgM) (hx : ExactMsg m) (size : Int)
+    (hfit : ((lenFold lenItem (m.question.map Sum.inl) 12 (some [])).1 : Int) ≤ size) :
+    let c := truncCounts lenItem (some []) size (toT m)
+    c.a.2.1 = m.answer.length → c.a.1 ≤ size → c.n.2.1 < m.ns.length →
+    let more : MsgM := { m with ns := m.ns.take (c.n.2.1 + 1), extra := [] }
+    ((lenFold lenItem (items m.question m.answer (m.ns.take c.n.2.1) []) 12 (some [])).1 : Int) = size ∨
+    ∀ (w : Bytes), packMsgCOf more = some w → ∀ (n : Nat), lenMsg more true = some n → size < (w.length : Int) := by
+  intro c hall hale hcut more
+  -- the answer loop ended in Len's state over questions and answers
+  have ha := guard_all_kept lenItem size (m.answer.map Sum.inr)
+    (lenFold lenItem (m.question.map Sum.inl) 12 (some [])).1 (lenFold lenItem (m.question.map Sum.inl) 12 (some [])).2
+    (by rw [List.length_map]; exact hall)
+  have ha1 : c.a.1 = ((lenFold lenItem (m.answer.map Sum.inr) (lenFold lenItem (m.question.map Sum.inl) 12 (some [])).1
+      (lenFold lenItem (m.question.map Sum.inl) 12 (some [])).2).1 : Int) := ha.1
+  have ha2 : c.a.2.2 = (lenFold lenItem (m.answer.map Sum.inr) (lenFold lenItem (m.question.map Sum.inl) 12 (some [])).1
+      (lenFold lenItem (m.question.map Sum.inl) 12 (some [])).2).2 := ha.2
+  generalize hQA : lenFold lenItem (m.answer.map Sum.inr) (lenFold lenItem (m.question.map Sum.inl) 12 (some [])).1
+      (lenFold lenItem (m.question.map Sum.inl) 12 (some [])).2 = qa at ha1 ha2
+  have hn : c.n = (if (qa.1 : Int) < size then truncateLoop lenItem size (m.ns.map Sum.inr) qa.1 qa.2 0
+      else ((qa.1 : Int), 0, qa.2)) := by
+    show (if c.a.1 < size then truncateLoop lenItem size (m.ns.map Sum.inr) c.a.1.toNat c.a.2.2 0 else (c.a.1, 0, c.a.2.2)) = _
+    rw [ha1, ha2]; simp
+  have hcut' : (if (qa.1 : Int) < size then truncateLoop lenItem size (m.ns.map Sum.inr) qa.1 qa.2 0
+      else ((qa.1 : Int), 0, qa.2)).2.1 < (m.ns.map Sum.inr : List (Sum Qm RRm)).length := by
+    rw [← hn]; simpa using hcut
+  obtain ⟨r, hr0, hcase0⟩ := guard_first_dropped lenItem size (m.ns.map Sum.inr) qa.1 qa.2 (by rw [← ha1]; exact hale) hcut'
+  rw [← hn] at hr0 hcase0
+  have hpre : lenFold lenItem (m.question.map Sum.inl ++ m.answer.map Sum.inr) 12 (some []) = qa := by
+    rw [lenFold_append, hQA]
+  have hfoldk : lenFold lenItem (items m.question m.answer (m.ns.take c.n.2.1) []) 12 (some []) =
+      lenFold lenItem ((m.ns.map Sum.inr).take c.n.2.1) qa.1 qa.2 := by
+    simp only [items, List.map_nil, List.append_nil, List.map_take]
+    rw [lenFold_append, hpre]
+  rcases hcase0 with h | h
+  · left; rw [hfoldk]; exact h
+  · right
+    obtain ⟨r0, hr0a, hr0b⟩ : ∃ r0, m.ns[c.n.2.1]? = some r0 ∧ r = Sum.inr r0 := by
+      rw [List.getElem?_map] at hr0
+      cases ha : m.ns[c.n.2.1]? with
+      | none => rw [ha] at hr0; simp at hr0
+      | some r0 => rw [ha] at hr0; simp only [Option.map_some, Option.some.injEq] at hr0; exact ⟨r0, rfl, hr0.symm⟩
+    subst hr0b
+    have htake := take_succ_snoc m.ns c.n.2.1 r0 hr0a
+    have hxm : ExactMsg more := by
+      refine ⟨hx.1, ?_⟩
+      intro r' hr'
+      simp only [more, List.append_nil, List.mem_append] at hr'
+      rcases hr' with h' | h'
+      · exact hx.2 r' (by simp [h'])
+      · exact hx.2 r' (by simp [List.mem_of_mem_take h'])
+    refine does_not_fit_core more hxm (nonempty_not_trivial _ _ _ _ (Or.inr (Or.inl (by show m.ns.take (c.n.2.1 + 1) ≠ []; rw [htake]; simp))))
+      (m.question.map Sum.inl ++ m.answer.map Sum.inr ++ (m.ns.map Sum.inr).take c.n.2.1) r0 ?_ size ?_
+    · simp only [items, more, htake, List.map_append, List.map_cons, List.map_nil, List.append_nil, List.map_take,
+        List.append_assoc]
+    · rw [lenFold_append, hpre]; exact h
+
+/-- **the first dropped additional record would not have fitted** (all answers and authority records kept) -/
+theorem first_dropped_extra_does_not_fit (m : MsgM) (hx : ExactMsg m) (size : Int)
+    (hfit : ((lenFold lenItem (m.question.map Sum.inl) 12 (some [])).1 : Int) ≤ size) :
+    let c := truncCounts lenItem (some []) size (toT m)
+    c.a.2.1 = m.answer.length → c.n.2.1 = m.ns.length → c.n.1 ≤ size → c.e.2.1 < m.extra.length →
+    let more : MsgM := { m with extra := m.extra.take (c.e.2.1 + 1) }
+    ((lenFold lenItem (items m.question m.answer m.ns (m.extra.take c.e.2.1)) 12 (some [])).1 : Int) = size ∨
+    ∀ (w : Bytes), packMsgCOf more = some w → ∀ (n : Nat), lenMsg more true = some n → size < (w.length : Int) := by
+  intro c hall hnall hnle hcut more
+  have ha := guard_all_kept lenItem size (m.answer.map Sum.inr)
+    (lenFold lenItem (m.question.map Sum.inl) 12 (some [])).1 (lenFold lenItem (m.question.map Sum.inl) 12 (some [])).2
+    (by rw [List.length_map]; exact hall)
+  have ha1 : c.a.1 = ((lenFold lenItem (m.answer.map Sum.inr) (lenFold lenItem (m.question.map Sum.inl) 12 (some [])).1
+      (lenFold lenItem (m.question.map Sum.inl) 12 (some [])).2).1 : Int) := ha.1
+  have ha2 : c.a.2.2 = (lenFold lenItem (m.answer.map Sum.inr) (lenFold lenItem (m.question.map Sum.inl) 12 (some [])).1
+      (lenFold lenItem (m.question.map Sum.inl) 12 (some [])).2).2 := ha.2
+  generalize hQA : lenFold lenItem (m.answer.map Sum.inr) (lenFold lenItem (m.question.map Sum.inl) 12 (some [])).1
+      (lenFold lenItem (m.question.map Sum.inl) 12 (some [])).2 = qa at ha1 ha2
+  have hn : c.n = (if (qa.1 : Int) < size then truncateLoop lenItem size (m.ns.map Sum.inr) qa.1 qa.2 0
+      else ((qa.1 : Int), 0, qa.2)) := by
+    show (if c.a.1 < size then truncateLoop lenItem size (m.ns.map Sum.inr) c.a.1.toNat c.a.2.2 0 else (c.a.1, 0, c.a.2.2)) = _
+    rw [ha1, ha2]; simp
+  have hnk := guard_all_kept lenItem size (m.ns.map Sum.inr) qa.1 qa.2 (by rw [← hn]; simpa using hnall)
+  rw [← hn] at hnk
+  generalize hQAN : lenFold lenItem (m.ns.map Sum.inr) qa.1 qa.2 = qan at hnk
+  have he : c.e = (if (qan.1 : Int) < size then truncateLoop lenItem size (m.extra.map Sum.inr) qan.1 qan.2 0
+      else ((qan.1 : Int), 0, qan.2)) := by
+    show (if c.n.1 < size then truncateLoop lenItem size (m.extra.map Sum.inr) c.n.1.toNat c.n.2.2 0 else (c.n.1, 0, c.n.2.2)) = _
+    rw [hnk.1, hnk.2]; simp
+  have hcut' : (if (qan.1 : Int) < size then truncateLoop lenItem size (m.extra.map Sum.inr) qan.1 qan.2 0
+      else ((qan.1 : Int), 0, qan.2)).2.1 < (m.extra.map Sum.inr : List (Sum Qm RRm)).length := by
+    rw [← he]; simpa using hcut
+  obtain ⟨r, hr0, hcase0⟩ := guard_first_dropped lenItem size (m.extra.map Sum.inr) qan.1 qan.2 (by rw [← hnk.1]; exact hnle) hcut'
+  rw [← he] at hr0 hcase0
+  have hpre : lenFold lenItem (m.question.map Sum.inl ++ m.answer.map Sum.inr ++ m.ns.map Sum.inr) 12 (some []) = qan := by
+    rw [lenFold_append, lenFold_append, hQA, hQAN]
+  have hfoldk : lenFold lenItem (items m.question m.answer m.ns (m.extra.take c.e.2.1)) 12 (some []) =
+      lenFold lenItem ((m.extra.map Sum.inr).take c.e.2.1) qan.1 qan.2 := by
+    simp only [items, List.map_take]
+    rw [lenFold_append, hpre]
+  rcases hcase0 with h | h
+  · left; rw [hfoldk]; exact h
+  · right
+    obtain ⟨r0, hr0a, hr0b⟩ : ∃ r0, m.extra[c.e.2.1]? = some r0 ∧ r = Sum.inr r0 := by
+      rw [List.getElem?_map] at hr0
+      cases ha : m.extra[c.e.2.1]? with
+      | none => rw [ha] at hr0; simp at hr0
+      | some r0 => rw [ha] at hr0; simp only [Option.map_some, Option.some.injEq] at hr0; exact ⟨r0, rfl, hr0.symm⟩
+    subst hr0b
+    have htake := take_succ_snoc m.extra c.e.2.1 r0 hr0a
+    have hxm : ExactMsg more := by
+      refine ⟨hx.1, ?_⟩
+      intro r' hr'
+      simp only [more, List.mem_append] at hr'
+      rcases hr' with (h' | h') | h'
+      · exact hx.2 r' (by simp [h'])
+      · exact hx.2 r' (by simp [h'])
+      · exact hx.2 r' (by simp [List.mem_of_mem_take h'])
+    refine does_not_fit_core more hxm (nonempty_not_trivial _ _ _ _ (Or.inr (Or.inr (by show m.extra.take (c.e.2.1 + 1) ≠ []; rw [htake]; simp))))
+      (m.question.map Sum.inl ++ m.answer.map Sum.inr ++ m.ns.map Sum.inr ++ (m.extra.map Sum.inr).take c.e.2.1) r0 ?_ size ?_
+    · simp only [items, more, htake, List.map_append, List.map_cons, List.map_nil, List.map_take, List.append_assoc]
+    · rw [lenFold_append, hpre]; exact h
 
 end Dns.C09M
